@@ -401,6 +401,18 @@ func init() {
 		}
 		return out
 	}
+	models["strings.ReplaceAll"] = func(it *Interp, a []Val) Val {
+		s, o, n := a[0].(*StrV), a[1].(*StrV), a[2].(*StrV)
+		cs, ok1 := s.concreteString()
+		co, ok2 := o.concreteString()
+		cn, ok3 := n.concreteString()
+		if ok1 && ok2 && ok3 {
+			return strLit(strings.ReplaceAll(cs, co, cn))
+		}
+		r := App("replaceall", SStr, it.toA(s), it.toA(o), it.toA(n))
+		it.strLenTerm(r)
+		return &StrV{T: r}
+	}
 	models["strings.ToLower"] = func(it *Interp, a []Val) Val {
 		s := a[0].(*StrV)
 		if cs, ok := s.concreteString(); ok {
